@@ -647,6 +647,30 @@ def rule_flat(ctx) -> RuleResult:
         if not ok:
             res.find("InputFile", "data", "update_enabled is switched off and not restored", dg.where,
                      "after the first read of .data, writes no longer update the enabled states from the values")
+            continue
+        # ... and on the exceptional exits: whatever runs while the option is off (the flatten + data assignment of the getter,
+        # the `yield` of a context manager wrapping them) can raise — then the restore must still be passed (try / finally,
+        # except + re-raise); a call or yield outside any protecting block leaves the function with the option off
+        def can_raise(n):
+            if n.kind == "raise":
+                return True
+            return any(isinstance(x, (ast.Call, ast.Yield, ast.YieldFrom, ast.Await)) for part in Flow._parts(n) for x in ast.walk(part))
+
+        leaks = []
+        for o in offs:
+            for n in reach(g, [m for m, _ in o.succ], avoid=rest):
+                if n in (g.exit, g.rexit) or not can_raise(n):
+                    continue
+                exc = [m for m, lab in n.succ if lab in ("exc", "raise")]
+                if not exc or g.rexit in exc or g.rexit in reach(g, exc, avoid=rest):
+                    leaks.append(n)
+        ok = not leaks
+        res.inst("InputFile.data: update_enabled is also restored when the work done while it is off raises", nontrivial=True, ok=ok)
+        if not ok:
+            res.find("InputFile", "data", "update_enabled stays switched off when the work between switch-off and restore raises",
+                     f"{f.module.relpath}:{min(n.lineno for n in leaks)}",
+                     "an exception raised while the option is off (promotion / validation of the flattened data) leaves update_enabled False "
+                     "on the input file: later writes no longer update the enabled states from the values")
     if any_saves and not checked:
         res.inst("InputFile.data: update_enabled switched off is restored to the saved value on every normal path", nontrivial=True, ok=False)
         res.find("InputFile", "data", "update_enabled is switched off and not restored", dg.where,
@@ -857,7 +881,7 @@ def _maximal(classes) -> list:
     return [c for c in classes if not any(o is not c and c.is_subclass_of(o) for o in classes)]
 
 
-def produced_kinds(ctx, fn) -> list:
+def produced_kinds(ctx, fn, _depth=0) -> list:
     """Kinds of values a read-side converter can return instead of its argument: None, UUID, the infinities (float(<token>)),
     an instance of a class it constructs, or — for values fetched from the workspace — the classes named by the return
     annotations of the accessors the returned expression goes through (get_entity -> Entity | PropertyGroup, ...)."""
@@ -892,6 +916,21 @@ def produced_kinds(ctx, fn) -> list:
             cands = p.by_name.get(nm, []) if nm else []
             if len(cands) == 1 and isinstance(leaf.func, ast.Name):
                 classes.append(cands[0])
+                continue
+            # a helper of the package that builds the value (a call the normaliser leaves in place because it is evaluated
+            # conditionally): what the helper can return is what the converter can return
+            from ._c14_sem import _callee
+
+            tgt = _callee(p, v, leaf)
+            if tgt is None and r and r[0] == "func":
+                tgt = r[1]
+            if tgt is not None and tgt.node is not fn.node and _depth < 3:
+                for k in produced_kinds(ctx, tgt, _depth + 1):
+                    if isinstance(k, str):
+                        if k not in kinds:
+                            kinds.append(k)
+                    else:
+                        classes.append(k)
                 continue
         for x in ast.walk(leaf):
             if isinstance(x, ast.Attribute):
